@@ -362,6 +362,22 @@ def main():
         print("internal error: driver not built\n" + lean_log[-3000:])
         return 2
 
+    # thorough tier: the compiled property modules are replayed through the kernel once more by the toolchain's independent
+    # re-checker (`leanchecker`: declarations of the module are re-added to a fresh environment and type-checked)
+    if tier == "thorough" and lean_ok and not args.replay and not args.n:
+        import glob as _glob
+        t1 = time.time()
+        mods = ["Vata.Properties." + os.path.basename(f)[:-5] for f in sorted(_glob.glob(os.path.join(LEAN, "Vata", "Properties", prop + "*.lean")))]
+        mods += ["Vata.Properties.Dispatch", "Vata.Properties.CacheWiring"] if prop in ("C01", "C07", "C09") else []
+        rechecked = {}
+        for m in mods:
+            rc, out, err = sh(["lake", "env", "leanchecker", m], cwd=LEAN)
+            rechecked[m] = rc
+            if rc != 0:
+                aud["broken"].append(dict(theorem=m, reason="leanchecker rejects the compiled module: " + (out + err)[-300:]))
+        aud["leanchecker"] = rechecked
+        timing["leanchecker_s"] = round(time.time() - t1, 1)
+
     if args.replay:
         rp = json.load(open(args.replay))
         cases = rp.get("cases") or [rp["case"]]
@@ -565,6 +581,7 @@ def write_evidence(prop, tier, seed, cfg, aud, results, knowns, wall, nviol, ext
                 "reading of the property into the L0 statement (lean/Vata/Properties/%s.lean)" % prop,
             ],
             theorems=aud.get("names", []), axioms_per_theorem=aud.get("axioms", {}), broken_obligations=aud.get("broken", []),
+            leanchecker=aud.get("leanchecker"),
             evaluations=len(results), distinct_nontrivial=len(distinct),
             rule=cfg["rule"], samples=samples, kinds=kinds, tag_histogram=dict(sorted(tags.items(), key=lambda kv: -kv[1])[:40]),
             traces_validated_against_impl=len(oks), known_finding_cases=len(knowns), exhaustive=False, **extra),
